@@ -1,0 +1,9 @@
+//go:build verif
+
+package sst
+
+// VerifTableWithRange returns a table that only carries a key range, for exercising the range compare
+// functions and the level lookup. Verification harness only (build tag verif).
+func VerifTableWithRange(startKey, endKey []byte) *Table {
+	return &Table{startKey: startKey, endKey: endKey, metadataLoaded: true}
+}
